@@ -107,6 +107,9 @@ func (ex *Exec) intrinsic(g *G, f *Frame, fn *ssa.Function, args []Value, call *
 	if v, ok := ex.calendarIntrinsic(n, args); ok {
 		return v, false
 	}
+	if v, ok := ex.stringsIntrinsic(n, args); ok {
+		return v, false
+	}
 	switch n {
 	case "math.Abs":
 		return ex.fabs(args[0].(Flt)), false
